@@ -3,6 +3,7 @@ import H264.NalSrcProofs
 import H264.SeiMono
 import H264.Tables2C10
 import H264.TblProofC10
+import H264.SmallProofC10
 /-! # C10 — SEI reader yields exactly the encoded (type, payload) messages, then stays ended
 
 Model: `Sei.next` mirrors `SeiReader::next` over the bytes the RBSP byte reader delivers (`NalSrc.drain`: bytes
@@ -84,5 +85,12 @@ theorem code_payload_types_distinct : Generated.seiType.length = 512 ∧
 /-- model `Sei.next` = real `SeiReader::next` on the 512 swept one-message SEI RBSPs (type recovered, payload intact), by proof -/
 theorem model_reader_reproduces_code_on_payload_type_sweep :
     ∀ i : Fin 512, TblProof.seiTypeCode i.val = some (Generated.seiType.getD i.val 999) := TblProof.seiType_model_eq_code
+
+/-- **model = real code on a complete small domain, by proof**: every RBSP of length 0…5 over {00, 01, 80, ff} (1 365 inputs: every
+short coding of type and size incl. the ff extension, the trailing-bits byte in first and later position, truncations) read
+until the reader has reported the end or an error three times: the model reader (with its scratch vector) returns what the
+real `SeiReader::next` returned in this run's graph — each message, the end, each error class, and silence afterwards -/
+theorem model_reader_reproduces_code_on_small_rbsps :
+    (SmallProof.words4 [0x00, 0x01, 0x80, 0xff]).map SmallProof.seiRow = Generated.seiRows := SmallProof.sei_model_eq_code
 
 end C10
